@@ -42,6 +42,7 @@ type wrScenario struct {
 	Reads    int     `json:"reads"`    // 1 = read-heavy mix (stale read-buffer entries for replaced nodes)
 	SmallBuf int     `json:"smallbuf"` // 1 = write buffer of 8 events and a foreign holder of the eviction mutex at the start of the race:
 	                                   // writers overflow the buffer and fall back to running maintenance themselves (afterWriteTask)
+	HWrite   int     `json:"hwrite"`   // 1 = the OnDeletion handler itself writes once (key 900) - user code that writes from inside a maintenance run
 	Stale    int     `json:"stale"`    // 1 = after the race, one reader per key is stalled between its table lookup and its
 	                                   // read-buffer append across a rewrite of the key that maintenance has already applied
 }
@@ -105,6 +106,7 @@ type wrAudit struct {
 	Steps    int        `json:"steps"`
 	// C14: what the cache looks like once every call has returned and the goroutines it started have finished, BEFORE any further
 	// call is made (read from the unexported state, no cache method is called)
+	PreWbuf  int        `json:"prewbuf"`  // events in the write buffer when every call had returned (before the audit calls anything)
 	PreIdle  int        `json:"preidle"`  // 1 = drain status idle and write buffer empty at that moment
 	PreOver  int        `json:"preover"`  // 1 = the policy's own total exceeded its maximum at that moment
 	PostOver int        `json:"postover"` // 1 = it still did after one explicit CleanUp
@@ -252,6 +254,13 @@ func runWRScenario(sc wrScenario) (a wrAudit) {
 	}()
 	a = wrAudit{T: "audit", Sc: sc, Nodes: []wrNode{}, All: []wrKV{}, Hottest: []int{}, Coldest: []int{}, Writes: []wrWrite{}, Events: []wrEvent{}}
 	clk := newManualClock(1_000_000_000)
+	var hwOnce atomic.Bool
+	var cref atomic.Pointer[Cache[int, int]]
+	hwRecord := func(w wrWrite) {
+		mu.Lock()
+		a.Writes = append(a.Writes, w)
+		mu.Unlock()
+	}
 	o := &Options[int, int]{
 		Clock: clk,
 		OnAtomicDeletion: func(e DeletionEvent[int, int]) {
@@ -265,6 +274,12 @@ func runWRScenario(sc wrScenario) (a wrAudit) {
 			seq++
 			a.Events = append(a.Events, wrEvent{seq, "D", e.Key, e.Value, e.Cause.String()})
 			mu.Unlock()
+			if sc.HWrite == 1 && e.Key != 900 && hwOnce.CompareAndSwap(false, true) {
+				// a write made by user code that runs inside a maintenance run (with a same-goroutine executor): that run ends "required"
+				if _, fresh := cref.Load().Set(900, 900900); fresh {
+					hwRecord(wrWrite{900, 900900, -1, "Set"})
+				}
+			}
 		},
 	}
 	switch sc.Size {
@@ -296,6 +311,7 @@ func runWRScenario(sc wrScenario) (a wrAudit) {
 		}
 	}
 	c := Must(o)
+	cref.Store(c)
 	defer c.StopAllGoroutines()
 	if sc.SmallBuf >= 1 && c.cache.withMaintenance {
 		c.cache.writeBuffer = queue.NewMPSC[task[int, int]](4, 8)
@@ -343,6 +359,9 @@ func runWRScenario(sc wrScenario) (a wrAudit) {
 				}
 				if sc.Seed%3 == 0 && rng.Intn(3) == 0 {
 					x = 10 + rng.Intn(4) // the other writing operations
+				}
+				if sc.HWrite == 1 && (x == 9 || x == 13) {
+					x = 0 // a write-only phase: any read would ask for the drain the writes are supposed to ask for themselves
 				}
 				switch {
 				case x == 10:
@@ -520,6 +539,10 @@ func runWRScenario(sc wrScenario) (a wrAudit) {
 }
 
 func runWRPost(sc wrScenario, c *Cache[int, int], a *wrAudit, mu *sync.Mutex, record func(wrWrite), clk *manualClock) {
+	if sc.SyncExec == 1 {
+		// with a same-goroutine executor nothing runs behind the callers' backs: what is in the write buffer now stays there until a further call
+		a.PreWbuf = int(c.cache.writeBuffer.Size())
+	}
 	if c.cache.withEviction {
 		// C14: all calls have returned; give the goroutines the cache started time to finish, then look without calling anything
 		for i := 0; i < 300 && c.cache.drainStatus.Load() != idle; i++ {
